@@ -15,7 +15,7 @@ tvars == <<vars, l, run, kinds>>
 Verdict(what) == PrintT(<<"VERDICT", ToJson([run |-> run, l |-> l, v |-> "bad", what |-> what])>>)
 
 JServed(s) == IF s.t = "none" THEN SNone
-              ELSE IF s.t = "str" THEN SStr(s.v)
+              ELSE IF s.t = "str" THEN SStrE(s.v, s.e)
               ELSE SHash([f \in {p[1] : p \in Range(s.h)} |-> (CHOOSE p \in Range(s.h) : p[1] = f)[2]])
 JRsObs(o) == IF "absent" \in DOMAIN o THEN None ELSE JObs(o)
 
